@@ -390,6 +390,9 @@ easy_ebml! {
         Doc/Body/Part: Master = 0x10000004,
         Doc/Body/Part/Piece: Binary = 0x0800000005,
         Doc/Body/Part/Long: UnsignedInt = 0x0100000000000006,
+        Doc/Body/Part/Wide: Master = 0x0102030405060708,
+        Doc/Body/Part/Wide/In: UnsignedInt = 0x4010,
+        Doc/Body/Part/Seven: Binary = 0x02030405060708,
         Doc/(1-2)/Note: Utf8 = 0x4008,
         Doc/Body/(0-1)/Mark: UnsignedInt = 0x89,
         (1-)/Stamp: Integer = 0x8a,
@@ -416,6 +419,9 @@ pub fn static2_table() -> SpecTable {
             e(part, Ty::Master, vec![Id(doc), Id(body)]),
             e(0x0800000005, Ty::Bin, vec![Id(doc), Id(body), Id(part)]),
             e(0x0100000000000006, Ty::UInt, vec![Id(doc), Id(body), Id(part)]),
+            e(0x0102030405060708, Ty::Master, vec![Id(doc), Id(body), Id(part)]),
+            e(0x4010, Ty::UInt, vec![Id(doc), Id(body), Id(part), Id(0x0102030405060708)]),
+            e(0x02030405060708, Ty::Bin, vec![Id(doc), Id(body), Id(part)]),
             e(0x4007, Ty::Master, vec![Id(doc), Global((None, None))]),
             e(0x4009, Ty::UInt, vec![Id(doc), Global((None, None)), Id(0x4007), Global((Some(0), Some(1)))]),
             e(0x400a, Ty::Master, vec![Id(doc), Global((Some(0), Some(1)))]),
@@ -551,17 +557,17 @@ impl<T: EbmlSpecification<T> + EbmlTag<T> + Clone + 'static> Spec for T {}
 pub fn to_tagv<T: Spec>(t: &T) -> TagV {
     let id = t.get_id();
     let val = match T::get_tag_data_type(id) {
-        Some(TagDataType::Master) => match t.as_master().expect("harness: master tag without master data") {
+        Some(TagDataType::Master) => match t.as_master().expect("the specification's accessor for the type it declares for this id returned None (master)") {
             Master::Start => Val::Start,
             Master::End => Val::End,
             Master::Full(cs) => Val::Full(cs.iter().map(to_tagv::<T>).collect()),
         },
-        Some(TagDataType::UnsignedInt) => Val::U(*t.as_unsigned_int().expect("harness: uint")),
-        Some(TagDataType::Integer) => Val::I(*t.as_signed_int().expect("harness: int")),
-        Some(TagDataType::Float) => Val::F(t.as_float().expect("harness: float").to_bits()),
-        Some(TagDataType::Utf8) => Val::S(t.as_utf8().expect("harness: utf8").to_string()),
-        Some(TagDataType::Binary) => Val::B(t.as_binary().expect("harness: binary").to_vec()),
-        None => Val::Raw(t.as_binary().expect("harness: raw").to_vec()),
+        Some(TagDataType::UnsignedInt) => Val::U(*t.as_unsigned_int().expect("the specification's accessor for the type it declares for this id returned None (uint)")),
+        Some(TagDataType::Integer) => Val::I(*t.as_signed_int().expect("the specification's accessor for the type it declares for this id returned None (int)")),
+        Some(TagDataType::Float) => Val::F(t.as_float().expect("the specification's accessor for the type it declares for this id returned None (float)").to_bits()),
+        Some(TagDataType::Utf8) => Val::S(t.as_utf8().expect("the specification's accessor for the type it declares for this id returned None (utf8)").to_string()),
+        Some(TagDataType::Binary) => Val::B(t.as_binary().expect("the specification's accessor for the type it declares for this id returned None (binary)").to_vec()),
+        None => Val::Raw(t.as_binary().expect("the specification's accessor for the type it declares for this id returned None (raw)").to_vec()),
     };
     TagV { id, val }
 }
